@@ -48,6 +48,10 @@ def tmatmul_case(ty, M, K, N, lt, rt, cfg, kind='own', fam=None, form=None):
         body = '    %s %s %s\n    C = %s(A,B);' % (tmap(ty, (M, K), 'a'), tmap(ty, (K, N), 'b'), tmap(ty, (M, N), 'c', const=False), call)
     elif kind == 'expr':      # one operand an unevaluated expression
         body = '    %s %s\n    Tensor<%s,%d,%d> C = %s(A+0,B);\n    %s' % (town(ty, (M, K), 'a'), town(ty, (K, N), 'b'), T, M, N, call, copy_out('C', 'c', M * N))
+    elif kind == 'exprR':     # right operand an unevaluated expression: tmatmul(Tensor, expression) overload
+        body = '    %s %s\n    Tensor<%s,%d,%d> C = %s(A,B+0);\n    %s' % (town(ty, (M, K), 'a'), town(ty, (K, N), 'b'), T, M, N, call, copy_out('C', 'c', M * N))
+    elif kind == 'exprLR':    # both operands unevaluated expressions
+        body = '    %s %s\n    Tensor<%s,%d,%d> C = %s(A+0,B+0);\n    %s' % (town(ty, (M, K), 'a'), town(ty, (K, N), 'b'), T, M, N, call, copy_out('C', 'c', M * N))
     elif kind == 'matvec':    # N == 1, B is a rank-1 tensor
         assert N == 1
         body = '    %s Tensor<%s,%d> B(b);\n    Tensor<%s,%d> C = %s(A,B);\n    %s' % (town(ty, (M, K), 'a'), T, K, T, M, call, copy_out('C', 'c', M))
@@ -121,6 +125,24 @@ def cases(tier, seed):
                     if not thorough and isa == 'avx2' and ty is DBL:
                         out.append(tmatmul_case(ty, 5, 4, 6, lt, rt, cfg, 'map'))
                         out.append(tmatmul_case(ty, 4, 5, 3, lt, rt, cfg, 'expr'))
+        # multi-block shapes (quick tier too): more than one 8/12-row block followed by a 4-row block and leftover rows, more
+        # than one column block plus remainder columns (scalar tail under SSE2, masked tail under AVX2/AVX-512), wide and
+        # tall trapezoids whose structurally-zero region covers whole kernel blocks -- the k-range clipping
+        # (find_kfirst/find_klast) differs per block there, while the box [1..6]^3 only ever sees the block at row 0
+        multi = {('sse2', 'float'): [(13, 13, 9), (13, 6, 9)], ('sse2', 'double'): [(9, 9, 9), (8, 8, 10), (13, 6, 5), (4, 3, 9)],
+                 ('avx2', 'double'): [(13, 6, 7), (9, 9, 10)], ('avx2', 'float'): [(13, 6, 11)], ('avx512', 'double'): [(13, 6, 11)],
+                 ('avx', 'double'): [(13, 6, 7)], ('sse4.2', 'int'): [(13, 6, 9)], ('avx512', 'float'): [(13, 5, 19)]}
+        for ty in types:
+            for (M, K, N) in multi.get((isa, ty.name), []):
+                for (lt, rt) in pairs:
+                    out.append(tmatmul_case(ty, M, K, N, lt, rt, Cfg(isa), 'own', fam='multi', form='harness' if M * K * N > 250 else None))
+        # the four overloads (Tensor|expression) x (Tensor|expression) forward the tag pair separately: every tag pair through each
+        if isa in ('sse2', 'avx2') or thorough:
+            for (lt, rt) in pairs:
+                for kind in ('expr', 'exprR', 'exprLR'):
+                    # (4,4,4) and other sizes with hand-written kernels ignore the tags; 6x6x6 / 5x7x4 reach the tagged kernels
+                    M, K, N = (6, 6, 6) if kind != 'exprLR' else (5, 7, 4)
+                    out.append(tmatmul_case(DBL if isa != 'avx2' else FLT, M, K, N, lt, rt, Cfg(isa), kind))
         # block-size macros change the unroll factors the k-clipping is computed from
         if thorough or isa == 'avx2':
             macs = ['FASTOR_MATMUL_OUTER_BLOCK_SIZE=%d' % n for n in (1, 2, 3)] + ['FASTOR_MATMUL_INNER_BLOCK_SIZE=%d' % n for n in (1, 2, 3, 4)]
